@@ -160,11 +160,28 @@ def compare_obs(op, ob, exp):
     return None
 
 
+def expand(ops, obs):
+    """(index, op, observation) with the commands of a pipebatch (several commands queued in one pipeline, different keys)
+    as individual operations through the path "pipe"; they carry the batch's invocation/response instants"""
+    for i, (op, ob) in enumerate(zip(ops, obs)):
+        if op["op"] == "pipebatch":
+            if ob.get("r") != "ok" or not ob.get("results"):
+                yield i, {"op": "put", "c": "pipe", "d": op["d"], "k": op["batch"][0]["k"], "v": op["batch"][0].get("v", "")}, ob
+                continue
+            for it, iob in zip(op["batch"], ob["results"]):
+                b2 = dict(iob)
+                for f in ("t0", "t1", "n0", "n1"):
+                    b2.setdefault(f, ob.get(f))
+                yield i, dict(it, d=op["d"], c="pipe"), b2
+        else:
+            yield i, op, ob
+
+
 def check_semantics(sc, obs, default_ttl=None):
     """Evaluate the reference semantics on a sequential scenario. Returns None | (step, msg) | 'discard'."""
     ref = Ref(default_ttl)
     try:
-        for i, (op, ob) in enumerate(zip(sc["ops"], obs)):
+        for i, op, ob in expand(sc["ops"], obs):
             if str(ob.get("r", "")).startswith("harness:"):
                 raise vlib.CheckError("harness error: " + ob["r"])
             if op["op"] in ("sleep", "dump", "stats", "keyinfo", "evict", "janitor", "compact", "lock", "unlock", "lease"):
@@ -231,6 +248,8 @@ def with_keyinfo(ops):
             ks.append(o["k"])
         for k in o.get("ks", []) or []:
             ks.append(k)
+        for it in o.get("batch", []) or []:
+            ks.append(it["k"])
         for k in ks:
             if (o["d"], k) not in seen:
                 seen.append((o["d"], k))
@@ -271,7 +290,7 @@ def case_to_coq(cfg, ops, obs, default_ttl=None, max_idle=None):
             return tokmap[val].encode().hex()
         return val
 
-    for op, ob in zip(ops, obs):
+    for _, op, ob in expand(ops, obs):
         o = op["op"]
         if o == "keyinfo":
             routes.append("(%s, %s, %s, %s)" % (hb(op["d"].encode().hex()), hb(op["k"]), cnat(ob["owner"]), clist(cnat(b) for b in (ob.get("backups") or []))))
@@ -481,7 +500,7 @@ def check_semantics_locks(sc, obs, default_ttl=None):
     ref = Ref(default_ttl)
     holder = {}                 # handle -> (d, k)
     try:
-        for i, (op, ob) in enumerate(zip(sc["ops"], obs)):
+        for i, op, ob in expand(sc["ops"], obs):
             if ob.get("r") == "harness:no such lock handle":
                 continue            # Unlock/Lease of a handle whose Lock was refused: nothing was sent
             if str(ob.get("r", "")).startswith("harness:"):
